@@ -81,6 +81,7 @@ type caseSpec struct {
 	failKind string // code | eof | badid | trunc
 	badCreds string // how the broker reports bad credentials: code | challenge
 	refSrv   string // xdg | stdlib (SCRAM reference server)
+	impostor bool   // stdlib SCRAM server that accepts any proof and forges the server signature
 	wrongCreds bool // the credential table says the pair is wrong (after normalisation)
 	addr     string // address to dial ("" = broker1:9092); a non-numeric port makes splitHostPortNumber fail
 }
@@ -572,6 +573,10 @@ func emitCase(c caseSpec, res caseResult) {
 		if c.failAt == "" && c.mechFail < 0 && c.addr == "" && c.user == c.srvUser && c.pass == c.srvPass && !(c.hs != nil && c.hs[1] < 0 && c.path == "dialer") && !c.wrongCreds {
 			expect = "ok"
 		}
+		if c.impostor && c.failAt == "" && c.mechFail < 0 && c.addr == "" {
+			// mutual authentication: a forged server signature must make the dial fail
+			expect = "err"
+		}
 		fmt.Fprintf(out, "auth %s %d %s %s\t%s;%s;%d\n", path, sasl, env, expect, journal, res.results[i], cl)
 	}
 }
@@ -600,6 +605,13 @@ func main() {
 			for _, m := range []string{"plain", "scram256", "scram512", "steps"} {
 				cases = append(cases, caseSpec{path: path, hs: hs, au: au, mech: m, user: "alice", pass: "s3cret", srvUser: "alice", srvPass: "s3cret",
 					steps: 1 + r.Intn(4), mechFail: -1, refSrv: "xdg"})
+			}
+			// a broker that claims success without knowing the password (forged `v=`): SCRAM clients must refuse
+			if hs != nil && hs[0] == 0 && hs[1] >= 0 {
+				for _, m := range []string{"scram256", "scram512"} {
+					cases = append(cases, caseSpec{path: path, hs: hs, au: au, mech: m, user: "alice", pass: "s3cret", srvUser: "alice", srvPass: "s3cret",
+						mechFail: -1, refSrv: "stdlib", impostor: true})
+				}
 			}
 			// failure at every step
 			for _, at := range []string{"versions", "handshake", "auth1", "auth2", "auth3"} {
